@@ -46,6 +46,10 @@ def cases(tier, seed):
         for via in ("path", "pathlib", "handle"):
             out.append(dict(name="tum_roundtrip_N%d_%s" % (n, via), kind="tum", n=n, via=via))
             out.append(dict(name="kitti_roundtrip_N%d_%s" % (n, via), kind="kitti", n=n, via=via))
+    # a path that is written, read, written again with other data of the same size and shape, and read again
+    for fmt in ("tum", "kitti"):
+        for n in ((1, 2) if tier == "quick" else (1, 2, 3)):
+            out.append(dict(name="%s_rewrite_same_path_N%d" % (fmt, n), kind="rewrite", fmt=fmt, n=n))
     for trajs in (0, 1, 2):
         for via in ("path", "handle"):
             out.append(dict(name="result_archive_%dtraj_%s" % (trajs, via), kind="res", trajs=trajs, via=via))
@@ -364,6 +368,84 @@ def run_res(case, col):
         runner.check_obligations(col, pr.ctx, g, inputs, replay, descr=case["name"])
     runner.explore_case(col, fn, A.assumptions() + B.assumptions(), on_ok, exc_is_violation(col, inputs, replay, case),
                         pins=common.pins_for(A, B, n=1))
+
+
+def run_rewrite(case, col):
+    """write A, read, write B (same number of poses, hence the same file size) to the same path, read: the second
+    read returns B -- a reader must not answer from anything but the file as it is now"""
+    fmt, n = case["fmt"], case["n"]
+    stamped = fmt == "tum"
+    A, B = SymTraj("a", n, stamps=stamped), SymTraj("b", n, stamps=stamped)
+    inputs = dict(A.inputs(), **B.inputs())
+
+    def rw(fi):
+        if fmt == "tum":
+            return fi.write_tum_trajectory_file, fi.read_tum_trajectory_file
+        return fi.write_kitti_poses_file, fi.read_kitti_poses_file
+
+    def fn():
+        textcells.reset()
+        d = tmpdir()
+        try:
+            w, r = rw(FI())
+            p = os.path.join(d, "t." + fmt)
+            w(p, A.build("quat"))
+            back1 = r(p)
+            size1 = os.path.getsize(p)
+            w(p, B.build("quat"))
+            back2 = r(p)
+            return back1, back2, size1 == os.path.getsize(p)
+        finally:
+            shutil.rmtree(d, ignore_errors=True)
+
+    def replay(vals):
+        FIr = common.R("evo.tools.file_interface")
+        hv = hard_values(vals, list(inputs))
+        ta, tb = A.concrete(hv, "quat", normalise=False), B.concrete(hv, "quat", normalise=False)
+        tb._positions_xyz = tb.positions_xyz + 0.25
+        if stamped:
+            ta.timestamps = rnp.sort(ta.timestamps) + 1.5e9
+            tb.timestamps = rnp.sort(tb.timestamps) + 1.6e9
+        d = tmpdir()
+        try:
+            w, r = rw(FIr)
+            p = os.path.join(d, "t.txt")
+            w(p, ta)
+            b1 = r(p)
+            w(p, tb)
+            b2 = r(p)
+            bad = []
+            for nm, back, t in (("first", b1, ta), ("second (after the path was rewritten)", b2, tb)):
+                if back.num_poses != t.num_poses:
+                    bad.append("%s read: %d poses written, %d read" % (nm, t.num_poses, back.num_poses))
+                elif not (rnp.array_equal(back.positions_xyz, t.positions_xyz) and
+                          (not stamped or rnp.array_equal(back.timestamps, t.timestamps)) and
+                          all(rnp.array_equal(x, y) for x, y in zip(back.poses_se3, t.poses_se3))):
+                    bad.append("%s read differs from what was written last" % nm)
+            return bool(bad), "; ".join(bad) or "ok"
+        finally:
+            shutil.rmtree(d, ignore_errors=True)
+
+    def goal(back, Tj):
+        if fmt == "tum":
+            return eq_traj_goal(back, Tj)
+        if len(back.poses_se3) != n:
+            return z3.BoolVal(False)
+        eqs = []
+        for i in range(n):
+            Rz = common.zR(Tj.q[i])
+            eqs += [sc.eq_goal(back.poses_se3[i][a, b], SymReal(Rz[a][b])) for a in range(3) for b in range(3)]
+            eqs += [sc.eq_goal(back.poses_se3[i][a, 3], SymReal(Tj.p[i][a])) for a in range(3)]
+        return z3.And(eqs)
+
+    def on_ok(pr):
+        back1, back2, same_size = pr.out
+        g = {"model_files_have_equal_size_like_evos_fixed_width_cells": z3.BoolVal(bool(same_size)),
+             "first_read_returns_the_first_data": goal(back1, A),
+             "second_read_returns_the_data_written_last": goal(back2, B)}
+        runner.check_obligations(col, pr.ctx, g, inputs, replay, descr=case["name"])
+    runner.explore_case(col, fn, A.assumptions() + B.assumptions(), on_ok, exc_is_violation(col, inputs, replay, case),
+                        pins=common.pins_for(A, B, n=1), must_reach=("ok",))
 
 
 def run_pandas(case, col):
